@@ -49,7 +49,27 @@ def templates():
     T["after-dynamic-call"] = main("    g = pick(c)\n    r = g(n)\n    {X}\n", two)
     T["before-dynamic-call"] = main("    {X}\n    g = pick(c)\n    r = g(n)\n", two)
     T["gate-in-loop-after-dynamic-call"] = main("    g = pick(c)\n    acc = 0\n    i = 0\n    for i in range(n):\n        acc = acc + g(i)\n        {X}\n    return acc\n", two)
+    T["after-loop-that-returns"] = main("    i = 0\n    for i in range(n):\n        return i\n    {X}\n    return 7\n")
+    T["after-loop-returning-under-if"] = main("    i = 0\n    for i in range(n):\n        if c:\n            return i\n    {X}\n    return 7\n")
+    T["in-loop-before-return"] = main("    i = 0\n    for i in range(n):\n        {X}\n        return i\n    return 7\n")
+    T["in-nested-loop-after-returning-loop"] = main("    i = 0\n    j = 0\n    for i in range(n):\n        for j in range(i):\n            return j\n        {X}\n    return 7\n")
+    # a wrapper that calls a DIFFERENT kernel carrying the same name (user wrapper around a library routine)
+    T["same-name-subroutine"] = ("two-step", "@move\ndef prepare(m: int):\n" + PRO + "    {X}\n    return m\n",
+                                 "@move\ndef prepare(m: int):\n    return lib_prepare(m)\n\n" + main("    r = prepare(n)\n"))
+    T["same-name-as-main"] = ("two-step", "@move\ndef main(m: int):\n" + PRO + "    {X}\n    return m\n",
+                              main("    r = lib_prepare(n)\n"))
     return T
+
+
+def define_template(tsrc, stext):
+    """-> (main method, source text shown in replays)"""
+    if isinstance(tsrc, tuple):
+        inner_src = TW + tsrc[1].replace("{X}", stext)
+        inner = [v for k, v in kernels.define(inner_src).items() if k in ("prepare", "main")][0]
+        outer_src = TW + tsrc[2].replace("{X}", stext)
+        return kernels.define(outer_src, lib_prepare=inner)["main"], "# lib_prepare is:\n" + inner_src + "\n# then:\n" + outer_src
+    src = TW + tsrc.replace("{X}", stext)
+    return kernels.define(src)["main"], src
 
 
 ARGS = [(n, c) for n in (0, 1, 2) for c in (False, True)]
@@ -143,9 +163,9 @@ def run(ctx):
         for sname, stext in stmts:
             if (tname, sname) not in keep:
                 continue
-            src = TW + tsrc.replace("{X}", stext)
+            src = TW + (tsrc if isinstance(tsrc, str) else tsrc[2]).replace("{X}", stext)
             try:
-                m = kernels.define(src)["main"]
+                m, src = define_template(tsrc, stext)
             except Exception as e:
                 ctx.hist("outcome", f"definition error {type(e).__name__}")
                 ctx.extra.setdefault("definition_errors", []).append(f"{tname}/{sname}: {type(e).__name__}: {str(e)[:80]}")
@@ -176,6 +196,8 @@ def run(ctx):
             prog = clist([f"({cstr(k)}, {v})" for k, v in table.items()])
             cases.append((f"({prog}, {body})", ans, rep))
     ctx.sample({"position": "loop2-carried", "kernel": (T["loop2-carried"].replace("{X}", DEV["cz"]))[-400:]})
+    if ctx.extra.get("definition_errors"):
+        ctx.obligation("every template kernel can be defined", False, "; ".join(ctx.extra["definition_errors"][:4]))
     chunks = [cases[i:i + 80] for i in range(0, len(cases), 80)]
     bodies = [(f"rt_{k}", COQ_IMPORT + "Eval vm_compute in (lines (map (fun c => show_answer (analyze 128 (fst c) (snd c))) %s))." %
                clist([c[0] for c in ch])) for k, ch in enumerate(chunks)]
@@ -199,7 +221,11 @@ def replay(data):
     if "src" not in inp:
         return True, "re-run bin/check C09"
     S = tweezer_prog.harness_spec()
-    m = kernels.define(inp["src"])["main"]
+    stmts = dict(list(DEV.items()) + [("quiet", QUIET)])
+    if inp.get("position") in templates() and inp.get("statement") in stmts:
+        m, _ = define_template(templates()[inp["position"]], stmts[inp["statement"]])
+    else:
+        m = kernels.define(inp["src"])["main"]
     acting = [a for a in ARGS if events.run_events(m, a, S)[1]]
     ans = query(m)
     table, seen = {}, {}
